@@ -194,8 +194,7 @@ def extrusion_rule(check, P):
         else:
             check.violation("R4", f"extrusion:{mode}:amount",
                             f"in {mode} extrusion mode the hook sets E = {got.p.key() if got is not None else E!r}; expected {want.key()}", d)
-    if n < 3:
-        raise AnalysisError(f"C20.R4: only {n} abstract paths of the extrusion hook")
+    check.floor(not (n < 3), f"C20.R4: only {n} abstract paths of the extrusion hook")
     return n
 
 
@@ -218,8 +217,7 @@ def routing_rule(check, P):
                     n += 1
                     check.violation("R1", f"tracer:{fn.name}:{c.func.attr}", f"PathTracer.{fn.name} produces output through {c.func.attr}(), which runs no move hooks",
                                     [f"gscrib/geometry/tracer.py:{c.lineno}"])
-    if n < 2:
-        raise AnalysisError("C20.R1: fewer than 2 move() call sites found in the tracer")
+    check.floor(n >= 2, "C20.R1: fewer than 2 move() call sites found in the tracer")
 
 
 def pins(key):
@@ -252,8 +250,7 @@ def run(check, repo, tier):
         if len(check.samples) < 6 and r["items"]:
             check.sample({"command": r["command"], "context": r["ctx"], "abstract_paths": r["paths"], "example": [it[2] for it in r["items"] if it[0] == "ok"][:2]})
     for rid, floor in (("R2", 100), ("R3", 20), ("R5", 4)):
-        if counts.get(rid, 0) < floor:
-            raise AnalysisError(f"C20.{rid}: only {counts.get(rid, 0)} obligations decided (floor {floor})")
+        check.floor(not (counts.get(rid, 0) < floor), f"C20.{rid}: only {counts.get(rid, 0)} obligations decided (floor {floor})")
     n4 = extrusion_rule(check, cr.program)
     routing_rule(check, cr.program)
     check.analysed = dict(cr.stats, extrusion_paths=n4)
